@@ -91,18 +91,24 @@ def run(rep):
             [(4, 4), (8, 4), (4, 12), (8, 8), (12, 8), (16, 8), (16, 16), (24, 8), (8, 32)]
     n_mod = 0
     for (H, W) in sizes:
-        for L in (2, 4, 6):
+        # (L, Lr): the same pair of filters on both axes (2-tuple) or separate column / row filters (4-tuple, also of
+        # different lengths): the column filters act along H, the row filters along W, at EVERY level
+        for (L, Lr) in ((2, 2), (4, 4), (6, 6), (4, 2), (2, 6), (6, 4)):
             for J in (1, 2, 3):
                 if H % 2 ** J or W % 2 ** J:
                     continue
                 for mode in ("default", "periodic"):
-                    cfg = dict(H=H, W=W, L=L, J=J, mode=mode)
+                    if L != Lr and mode == "periodic" and (H + W + J) % 2:
+                        continue                      # thin the 4-tuple cases
+                    cfg = dict(H=H, W=W, L=L, Lr=Lr, J=J, mode=mode, form=2 if L == Lr else 4)
                     case = {"api": "SWTForward", "check": "swt_module", "cfg": cfg}
                     h0, h1 = dwtlib.int_taps(rng, L, 3), dwtlib.int_taps(rng, L, 3)
+                    g0, g1 = (h0, h1) if L == Lr else (dwtlib.int_taps(rng, Lr, 3), dwtlib.int_taps(rng, Lr, 3))
+                    wave = (h0, h1) if L == Lr else (h0, h1, g0, g1)
                     rep.validated()
-                    rep.nontriv(("swt", H, W, L, J, mode))
+                    rep.nontriv(("swt", H, W, L, Lr, J, mode))
                     try:
-                        m = SWTForward(J=J, wave=(h0, h1)) if mode == "default" else SWTForward(J=J, wave=(h0, h1), mode=mode)
+                        m = SWTForward(J=J, wave=wave) if mode == "default" else SWTForward(J=J, wave=wave, mode=mode)
                         X = torch.eye(H * W).reshape(H * W, 1, H, W)
                         coeffs = m(X)
                         shapes = [tuple(c.shape) for c in coeffs]
@@ -121,16 +127,16 @@ def run(rep):
                     ok = True
                     for j in range(1, J + 1):
                         d = 2 ** (j - 1)
-                        Rh, Rw = dwtlib.dense(ops[(H, L, d)]["ref"], H, L, H), dwtlib.dense(ops[(W, L, d)]["ref"], W, L, W)
+                        Rh, Rw = dwtlib.dense(ops[(H, L, d)]["ref"], H, L, H), dwtlib.dense(ops[(W, Lr, d)]["ref"], W, Lr, W)
                         c0, c1 = dwtlib.mat(Rh, h0), dwtlib.mat(Rh, h1)
-                        r0, r1 = dwtlib.mat(Rw, h0), dwtlib.mat(Rw, h1)
+                        r0, r1 = dwtlib.mat(Rw, g0), dwtlib.mat(Rw, g1)
                         exp = [kron2(c0, r0) @ Xm, kron2(c1, r0) @ Xm, kron2(c0, r1) @ Xm, kron2(c1, r1) @ Xm]   # A, H, V, D
                         for b in range(4):
                             got = coeffs[j - 1][:, 0, b].reshape(H * W, -1).numpy().T
                             if not dwtlib.eq_int(got, exp[b]):
                                 ok = False
                                 rep.violation("SWTForward level %d band %s differs from swt2's definition at %s" % (j, "AHVD"[b], cfg),
-                                              dict(case, level=j, band=b, taps=[h0.tolist(), h1.tolist()]))
+                                              dict(case, level=j, band=b, taps=[h0.tolist(), h1.tolist(), g0.tolist(), g1.tolist()]))
                                 break
                         if not ok:
                             break
@@ -185,6 +191,35 @@ def run(rep):
         if not err <= bound:
             rep.violation("SWTForward(%s) differs from pywt.swt2 by %.3g (bound %.3g) at %s" % (name, err, bound, cfg),
                           {"api": "SWTForward", "check": "swt_numeric", "cfg": cfg})
+    # ---- one wavelet per axis (4-tuple) vs pywt.swt2 with a pair of wavelets
+    pairs = [("db2", "db3"), ("db3", "haar"), ("bior2.2", "db2")] if tier == "quick" else \
+        [("db2", "db3"), ("db3", "haar"), ("bior2.2", "db2"), ("haar", "db4"), ("sym4", "db2"), ("coif1", "bior1.3")]
+    for (wc, wr) in pairs:
+        a, b = pywt.Wavelet(wc), pywt.Wavelet(wr)
+        for J in (2, 3):
+            H, W = 2 ** J * int(rng.integers(1, 4)), 2 ** J * int(rng.integers(1, 4))
+            x = rng.standard_normal((2, 2, H, W))
+            cfg = dict(wavelet_cols=wc, wavelet_rows=wr, H=H, W=W, J=J)
+            ref = pywt.swt2(x, (a, b), level=J, axes=(-2, -1))
+            G = max(np.abs(a.dec_lo).sum(), np.abs(a.dec_hi).sum(), np.abs(b.dec_lo).sum(), np.abs(b.dec_hi).sum())
+            bound = 64 * EPS64 * max(a.dec_len, b.dec_len) ** 2 * J * G ** (2 * J) * max(np.abs(x).max(), 1.0)
+            n_num += 1
+            rep.validated()
+            rep.nontriv(("swt_num_pair", wc, wr, H, W, J))
+            try:
+                out = SWTForward(J=J, wave=(a.dec_lo, a.dec_hi, b.dec_lo, b.dec_hi))(torch.tensor(x))
+                err = 0.0
+                for j in range(J):
+                    cA, (cH, cV, cD) = ref[J - 1 - j]
+                    want = np.stack([cA, cH, cV, cD], axis=2)
+                    got = out[j].numpy()
+                    err = max(err, np.abs(got - want).max() if got.shape == want.shape else np.inf)
+            except Exception as e:   # noqa
+                rep.violation("SWTForward(cols %s, rows %s) raised %r at %s" % (wc, wr, e, cfg), {"api": "SWTForward", "check": "swt_numeric_pair", "cfg": cfg})
+                continue
+            if not err <= bound:
+                rep.violation("SWTForward with column wavelet %s and row wavelet %s differs from pywt.swt2((%s, %s)) by %.3g (bound %.3g) at %s"
+                              % (wc, wr, wc, wr, err, bound, cfg), {"api": "SWTForward", "check": "swt_numeric_pair", "cfg": cfg})
     rep.count("swt_numeric_comparisons", n_num)
     rep.assumptions += ["sizes are multiples of 2^J as pywt.swt2 requires", "bounded sizes/dilations (coverage.tlc_runs)"]
 
